@@ -68,6 +68,9 @@ def run_case(case):
     turn = bool(case.get('threads'))
     texts = {'main': L.emit_pipeline(case['main'], turn, case.get('parser')),
              'other': L.emit_pipeline(case['other'], turn)}
+    if case.get('child'):
+        texts['child'] = L.emit_pipeline(case['child'], turn, 'list')
+    pipes = L.pipes_of(case)
     vstate.reset(texts, pv.Canon())
     loader_cache.clear_pipes()
     from pypyr.cache.filecache import file_cache
@@ -113,14 +116,16 @@ def run_case(case):
     runner.Context = RecordingContext
     try:
         loader = loader_cache.get_pype_loader(loader_name)
-        defs = {p: loader.get_pipeline(names[p], None) for p in ('main', 'other')}     # load ONCE
+        names.setdefault('child', 'child')
+        defs = {p: loader.get_pipeline(names[p], None) for p in pipes}     # load ONCE
 
         def live():
-            return {'main': defs['main'].pipeline, 'other': defs['other'].pipeline,
-                    'vars': config.vars, 'shortcuts': config.shortcuts}
+            d = {p: defs[p].pipeline for p in pipes}
+            d.update(vars=config.vars, shortcuts=config.shortcuts)
+            return d
         S.GETDEFS[0] = live
         S.PRISTINE.clear()
-        for p in ('main', 'other'):
+        for p in pipes:
             S.PRISTINE[p] = S.canon(get_pipeline_yaml(io.StringIO(texts[p])))   # re-parse = pristine
         S.PRISTINE['vars'] = S.canon(make_vars(case))      # an independent re-build = pristine
         S.PRISTINE['shortcuts'] = S.canon(copy.deepcopy(config.shortcuts))
@@ -179,7 +184,7 @@ def run_case(case):
             config.vars = make_vars(case)
             config.shortcuts = copy.deepcopy(fresh_shortcuts)
             loader = loader_cache.get_pype_loader(loader_name)
-            for p in ('other', 'main'):
+            for p in reversed(pipes):
                 defs[p] = loader.get_pipeline(names[p], None)
             obs['reverse_loaded_ok'] = not S.changed()
             obs['reverse'] = [one_run(p) for p in ('other', 'main', 'other')]
@@ -192,9 +197,9 @@ def run_case(case):
                     return [S.to_tree(root_value(case, lv, w)) for w, _ in rts]
                 except (KeyError, IndexError, TypeError) as e:
                     return [{'obj': f'root lost: {e!r}'}]
-            pipes = L.thread_pipes(case)
+            tpipes = L.thread_pipes(case)
             solo = []
-            for p in pipes:
+            for p in tpipes:
                 r = one_run(p)
                 r['defs'] = defs_now()
                 solo.append(r)
@@ -210,7 +215,7 @@ def run_case(case):
                         res[tid] = one_run(p, tid)
                     except BaseException as e:      # harness failure
                         res[tid] = {'harness_error': repr(e)}
-                ths = [threading.Thread(target=work, args=(p, tid)) for tid, p in enumerate(pipes)]
+                ths = [threading.Thread(target=work, args=(p, tid)) for tid, p in enumerate(tpipes)]
                 for t in ths:
                     t.start()
                 for t in ths:
